@@ -59,6 +59,9 @@ func (l *LSTM) Init(n *onnx.NodeProto) error {
 			l.hiddenSize = int(attr.GetI())
 		case "input_forget":
 			l.inputForget = attr.GetI() == 1
+			if l.inputForget {
+				return ops.ErrUnsupportedAttribute(attr.GetName(), l)
+			}
 		default:
 			return ops.ErrInvalidAttribute(attr.GetName(), l)
 		}
